@@ -24,6 +24,7 @@ type slaveConnection struct {
 	dc          dumpConn
 	destruction sync.Once
 	errChan     chan *Error
+	done        chan struct{} // closed by close(); releases a reader that holds an event nobody will take
 }
 
 func newSlaveConnection(dumpConn func() (dumpConn, error)) (*slaveConnection, *Error) {
@@ -35,6 +36,7 @@ func newSlaveConnection(dumpConn func() (dumpConn, error)) (*slaveConnection, *E
 	s := &slaveConnection{
 		dc:      m,
 		errChan: make(chan *Error, 1),
+		done:    make(chan struct{}),
 	}
 
 	if err := s.prepareForReplication(); err != nil {
@@ -52,6 +54,7 @@ func (s *slaveConnection) errors() <-chan *Error {
 func (s *slaveConnection) close() {
 	s.destruction.Do(
 		func() {
+			close(s.done)
 			if s.dc != nil {
 				s.dc.Close()
 				_log.Infof("Close closing slave socket to unblock reads")
@@ -97,6 +100,13 @@ func (s *slaveConnection) startDumpFromBinlogPosition(ctx context.Context, serve
 			case <-ctx.Done():
 				_log.Infof("startDumpFromBinlogPosition stop by ctx. reason: %v", ctx.Err())
 				s.errChan <- newError(ctx.Err()).msgf("startDumpFromBinlogPosition cancel")
+				close(s.errChan)
+				return
+			case <-s.done:
+				// The connection was closed while we were holding an event that
+				// the parser will never take (it stopped on its own error).
+				_log.Infof("startDumpFromBinlogPosition stop by close")
+				s.errChan <- newError(errConnClosed).msgf("startDumpFromBinlogPosition closed")
 				close(s.errChan)
 				return
 			}
